@@ -99,7 +99,22 @@ def check_result(s, family, method, result, uri, case, acc, extra_tags=None, vie
                                 case, "a result of the prescribed shape", probs[:3], what=f"{method} {probs[0]}"))
         return
     if method == "textDocument/codeAction":
-        return  # edits of code actions are offers, their ranges are checked through shape only
+        # the text edits of an offered action (and the diagnostics it restates) address documents too; an insertion may
+        # stand at the very end of the document (one line past the last)
+        for k, a in enumerate(result or []):
+            locs = [(u, e.get("range"), f"[{k}].edit.changes") for u, es in ((a.get("edit") or {}).get("changes") or {}).items() for e in es]
+            locs += [(uri, d.get("range"), f"[{k}].diagnostics") for d in a.get("diagnostics") or []]
+            for u, rng, where in locs:
+                lines = (view(u) if view else doc_lines(s, u)) if u else None
+                if lines is None or not isinstance(rng, dict):
+                    acc.violation(Violation(family, {**tags0, "obs": "range_target_missing"}, case, "an existing document", u, what=f"{method} {where} points at {u}"))
+                    continue
+                bad = shapes.check_range(rng, list(lines) + [""], where)
+                if bad:
+                    kind = "line" if ".line" in bad[0] else ("character" if ".character" in bad[0] else "order")
+                    acc.violation(Violation(family, {**tags0, "obs": "range_" + kind}, {**case, "range": rng, "target": u}, "a range inside the document",
+                                            bad[:2], what=f"{method} {bad[0]}"))
+        return
     for u, rng, where in shapes.collect_locations(result, uri):
         lines = (view(u) if view else doc_lines(s, u)) if u else None
         if lines is None:
@@ -442,6 +457,86 @@ def diag_job(case, acc: Acc):
         acc.sample({"case": list(case), "text": text})
 
 
+# ------------------------------------------------ statement-anchored diagnostics on continued statements
+STMT_DIAG_TEXTS = {
+    "implicit_outside": "implicit &\n   none\n",
+    "implicit_outside_amp": "implicit &\n   &none\n",
+    "second_contains_split_word": "module m\ncontains\ncon&\n&tains\nend module m\n",
+    "private_outside": "module m\nend module m\npri&\n  &vate\n",
+    "contains_outside_indented": "                    contains &\n\n",
+    "use_after_implicit": "module a\nend module a\nmodule m\n  implicit none\n  use &\n a\nend module m\n",
+}
+
+
+def stmt_diag_job(job, acc: Acc):
+    name, eol = job
+    text = STMT_DIAG_TEXTS[name].replace("\n", eol)
+    sc = worker_scratch("c09diag")
+    sc.wipe()
+    root = os.path.join(sc.path, "ws")
+    os.makedirs(root)
+    path = os.path.join(root, "d.f90")
+    with open(path, "w", newline="") as fh:
+        fh.write(text)
+    clear_caches()
+    s = server_on(root, [])
+    n = 0
+    for o in s.open(path) + s.save(path):
+        if o.get("method") == "textDocument/publishDiagnostics":
+            n = max(n, len(o["params"]["diagnostics"]))
+            check_result(s, "diag_statement", "publishDiagnostics", o["params"]["diagnostics"], o["params"]["uri"],
+                         {"job": list(job), "text": text, "method": "publishDiagnostics"}, acc, {"text_kind": name}, view=lambda u: re.split(r"\r\n|\n|\r", text))
+    acc.case(nontrivial_key=job if n else None, outcome=(name, n))
+
+
+# ------------------------------------------------ code actions whose module takes its tail from an INCLUDE file
+CA_BASE = ("module cab_m\n  implicit none\n  type, abstract :: cab_shape\n  contains\n    procedure(cab_area_i), deferred :: area\n  end type cab_shape\n  abstract interface\n"
+           "    function cab_area_i(self) result(a)\n      import cab_shape\n      class(cab_shape), intent(in) :: self\n      real :: a\n    end function cab_area_i\n  end interface\nend module cab_m\n")
+CA_SHAPES = "module cas_m\n  use cab_m\n  implicit none\n  type, extends(cab_shape) :: cas_circle\n    real :: r = 1.0\n  end type cas_circle\n{tail}end module cas_m\n"
+CA_TAIL = "  integer, save :: cas_n = 0\ncontains\n  subroutine cas_count()\n    cas_n = cas_n + 1\n  end subroutine cas_count\n"
+
+
+def codeaction_jobs():
+    for pad in (0, 3, 12):            # comment lines in front of the tail: the included procedures start beyond the includer's last line
+        for where in ("include", "inline"):
+            for contains_in in ("tail", "includer"):
+                if where == "inline" and contains_in == "includer":
+                    continue
+                yield (pad, where, contains_in)
+
+
+def codeaction_job(job, acc: Acc):
+    """The quick fix "implement deferred procedures" edits the file of the type; where the module's CONTAINS and
+    procedures come from an INCLUDE file (longer than the includer), every edit must still address the includer's text."""
+    pad, where, contains_in = job
+    tail = "".join(f"  ! filler {i}\n" for i in range(pad)) + (CA_TAIL if contains_in == "tail" else CA_TAIL.replace("contains\n", ""))
+    sc = worker_scratch("c09ca")
+    sc.wipe()
+    root = os.path.join(sc.path, "ws")
+    os.makedirs(root)
+    files = {"a_base.f90": CA_BASE}
+    if where == "include":
+        files["cas_tail.f90"] = tail
+        files["shapes.f90"] = CA_SHAPES.format(tail=("contains\n" if contains_in == "includer" else "") + "  include 'cas_tail.f90'\n")
+    else:
+        files["shapes.f90"] = CA_SHAPES.format(tail=tail)
+    for n, t in files.items():
+        with open(os.path.join(root, n), "w") as fh:
+            fh.write(t)
+    clear_caches()
+    s = server_on(root, ["--enable_code_actions"])
+    path = os.path.join(root, "shapes.f90")
+    s.open(path)
+    n = 0
+    for ln in range(files["shapes.f90"].count("\n") + 1):
+        for col in (0, 1, 2, 3):
+            before = len(acc.violations)
+            request_all(s, "code_actions", path, ln, col, acc, f"codeaction {job}", methods=["textDocument/codeAction"], extra_tags={"where": where, "contains_in": contains_in},
+                        case_extra={"job": list(job)})
+            n += 1
+    acc.count("code_action_requests", n)
+
+
 # ------------------------------------------------ diagnostics that point into other files
 # A diagnostic (and its relatedInformation) names a place in a document: the file must be the one the line number
 # belongs to.  Short files next to long ones, so that a line number taken from the wrong file falls outside.
@@ -678,6 +773,12 @@ def main(ctx):
     ctx.add_family("fragments", facc)
     dacc = core.pmap(diag_job, list(diag_cases()), chunk=2, budget_s=120, label="C09/diag")
     ctx.add_family("diag_continuation", dacc, templates=len(DIAG_TEMPLATES))
+    tacc = core.pmap(stmt_diag_job, [(n, e) for n in sorted(STMT_DIAG_TEXTS) for e in ("\n", "\r\n")], chunk=1, budget_s=120, label="C09/diag_statement")
+    ctx.add_family("diag_statement", tacc, what="parse-time diagnostics (IMPLICIT / CONTAINS / PRIVATE outside a scope, second CONTAINS, USE after IMPLICIT) whose statement is "
+                   "continued over two lines, LF and CRLF: the range lies inside the named line")
+    kacc = core.pmap(codeaction_job, list(codeaction_jobs()), chunk=1, budget_s=120, label="C09/codeactions")
+    ctx.add_family("code_actions", kacc, what="an extension with an unimplemented deferred binding whose module takes declarations / CONTAINS / procedures inline or from an "
+                   "INCLUDE file with 0-12 leading lines: codeAction over every line range, every text edit inside its document")
     xacc = core.pmap(cross_job, sorted(CROSS), chunk=1, budget_s=120, label="C09/cross")
     ctx.add_family("diag_cross_file", xacc, workspaces=len(CROSS))
     depth = 3 if q else 4
@@ -715,6 +816,12 @@ def replay(rec):
         frags = [f for f in c03.FRAGMENTS if not f.startswith("#")] + FRAGMENT_EXTRA
         fragment_job((frags.index(c["fragment"]), c["fragment"], c["shape"]), acc)
         return [v.to_json("C09") for v in acc.violations if (v.case.get("method"), v.case.get("character")) == (c.get("method"), c.get("character"))] or None
+    elif fam == "diag_statement":
+        stmt_diag_job(tuple(c["job"]), acc)
+        return [v.to_json("C09") for v in acc.violations] or None
+    elif fam == "code_actions":
+        codeaction_job(tuple(c["job"]), acc)
+        return [v.to_json("C09") for v in acc.violations if (v.case.get("line"), v.case.get("character")) == (c.get("line"), c.get("character"))] or None
     elif fam == "diag_cross_file":
         cross_job(c["workspace"], acc)
         return [v.to_json("C09") for v in acc.violations] or None
